@@ -294,6 +294,19 @@ func c08Constructors(r *Run, ts *TS, fns []*ssa.Function) {
 					}
 				}
 			}
+			// a wrapper around another returns-locked helper (`getOpenRef` over `getRef`): success only after that
+			// helper succeeded, handing back the very fid it returned
+			if !okCond {
+				eachInstr(fn, func(in ssa.Instruction) {
+					c, ok := in.(*ssa.Call)
+					if !ok {
+						return
+					}
+					if g := staticCallee(&c.Call); g != nil && g != fn && ts.summary(g).returnsLocked && callSucceededAt(c, ret) && stripConv(ret.Results[0]) == resultN(c, 0) {
+						okCond = true
+					}
+				})
+			}
 			if why == "" && !okCond {
 				why = "success is not conditioned on the table lookup's outcome"
 			}
@@ -676,6 +689,46 @@ func c08ModeGate(r *Run, p *Prog) {
 				}
 			}
 		}
+		// … or the fid comes from a getter whose every success return lies on an edge implying File != nil
+		if !okF {
+			eachInstr(fn, func(in ssa.Instruction) {
+				c, ok := in.(*ssa.Call)
+				if !ok || !instrDominates(c, target) {
+					return
+				}
+				g := staticCallee(&c.Call)
+				if g == nil || g.Blocks == nil || !p.InModule(g) || g.Signature.Results().Len() != 2 {
+					return
+				}
+				if !derivesFrom(target.Call.Value, resultN(c, 0), 4) {
+					return
+				}
+				nS, all := 0, true
+				for _, rs := range returnSites(g) {
+					if len(rs.Results) != 2 || !isNilConst(rs.Results[1]) {
+						continue
+					}
+					nS++
+					has := false
+					for _, cd := range rs.Conds() {
+						nc := normCond(cd)
+						if b, ok := nc.V.(*ssa.BinOp); ok {
+							for _, pair := range [][2]ssa.Value{{b.X, b.Y}, {b.Y, b.X}} {
+								if isNilConst(pair[1]) && isLoadOfField(pair[0], "SFid", "File") && (b.Op == token.NEQ) == nc.Truth {
+									has = true
+								}
+							}
+						}
+					}
+					if !has {
+						all = false
+					}
+				}
+				if nS > 0 && all {
+					okF = true
+				}
+			})
+		}
 		r.Check(okF, "mode-gate", "session."+name+": requires an open file (File != nil)", target.Pos(), name+" is possible on a fid that was never opened")
 		// the receiver is the fid's own File
 		r.Check(isLoadOfField(target.Call.Value, "SFid", "File"), "mode-gate", "session."+name+": calls the fid's own File", target.Pos(), "the call goes to something else than the fid's File")
@@ -875,6 +928,53 @@ func isDirTestsTheBit(r *Run, rule string) {
 					ok = true
 				case isC && c == qtdir && b.Op == token.EQL:
 					ok = true
+				}
+			}
+		}
+		// … or through a mask helper: `qid.Type.has(QTDIR)` with has(mask) = (qt & mask) == mask (or != 0)
+		if c, isC := ret.Results[0].(*ssa.Call); isC && !ok {
+			if g := staticCallee(&c.Call); g != nil && g.Blocks != nil && r.P.InModule(g) && len(g.Params) == 2 && len(c.Call.Args) == 2 {
+				qi, mi := -1, -1
+				for i, a := range c.Call.Args {
+					if v, isK := constInt(a); isK && v == qtdir {
+						mi = i
+					} else if f, isF := a.(*ssa.Field); isF && fieldNameV(f.X.Type(), f.Field) == "Type" {
+						qi = i
+					} else if isLoadOfField(a, "Qid", "Type") {
+						qi = i
+					}
+				}
+				if qi >= 0 && mi >= 0 {
+					okH := true
+					nH := 0
+					for _, gr := range returnsOf(g) {
+						nH++
+						b, isB := gr.Results[0].(*ssa.BinOp)
+						if !isB {
+							okH = false
+							continue
+						}
+						good := false
+						for _, pair := range [][2]ssa.Value{{b.X, b.Y}, {b.Y, b.X}} {
+							and, isAnd := stripConv(pair[0]).(*ssa.BinOp)
+							if !isAnd || and.Op != token.AND {
+								continue
+							}
+							if !((and.X == ssa.Value(g.Params[qi]) && and.Y == ssa.Value(g.Params[mi])) || (and.Y == ssa.Value(g.Params[qi]) && and.X == ssa.Value(g.Params[mi]))) {
+								continue
+							}
+							if b.Op == token.EQL && pair[1] == ssa.Value(g.Params[mi]) {
+								good = true
+							}
+							if z, isZ := constInt(pair[1]); isZ && z == 0 && b.Op == token.NEQ {
+								good = true
+							}
+						}
+						if !good {
+							okH = false
+						}
+					}
+					ok = okH && nH > 0
 				}
 			}
 		}
